@@ -98,7 +98,10 @@ def searchItem (z : ZTable) (cm : SearchCfgM) (cs : Spec.SearchCfg) (noSpec : Bo
           then (r.w.adjudicateNoLegalMoves 0).1 else r.w
         let r' := { r with st := st1, w := w1 }
         match res with
-        | none => (r', "halted restored=true", "halted restored=true")
+        | none =>
+          -- ... and the other way round: halted in the model, possibly finished by an implementation that polls less often
+          if noSpec then (r', "halted restored=true", "-") else
+          (r', "halted restored=true", "<<halted restored=true ~~ n=* r=* pv=* first=* pvlegal=true pvlen=true restored=true>>")
         | some sr =>
           let first := match sr.pv with | m :: _ => moveUci m | [] => "none"
           let model := s!"n={sr.nodes} r={fmtScore sr.score} pv={pvStr sr.pv} first={first} pvlegal={boolStr (pvLegalModel z r.w sr.pv)} pvlen={boolStr (sr.pv.length ≤ d)} restored=true"
@@ -118,7 +121,11 @@ def searchItem (z : ZTable) (cm : SearchCfgM) (cs : Spec.SearchCfg) (noSpec : Bo
             else match bests with
               | [] => if d = 0 || (Spec.legalMoves r.g.current).isEmpty || Spec.rank v == Spec.rank Score.negInfScore then "first=*" else "first=none"
               | ms => "first={" ++ String.intercalate "|" (ms.map Spec.moveName) ++ "}"
-          (r', model, s!"n=* {rpat} pv=* {firstPat} pvlegal=true pvlen=true restored=true")
+          let full := s!"n=* {rpat} pv=* {firstPat} pvlegal=true pvlen=true restored=true"
+          -- a cancellation that the model's search never reaches (it finishes within `cancel` polls): an implementation that
+          -- polls more often may be halted by it - where the polls are is not the property's business (C12: a halt is clean
+          -- wherever it lands) - so both outcomes are right
+          (r', model, if cancel = 0 then full else s!"<<{full} ~~ halted restored=true>>")
       | _, _, _, _ => (r, "bad-item", "bad-item")
     | _ => (r, "bad-item", "bad-item")
   else (r, "bad-item", "bad-item")
